@@ -692,6 +692,9 @@ def fn_inserts(u, m, d, it, info, used_fns, probe_fn):
         for lineno, t in sec:
             if re.match(r"\s*assert\b", t):
                 info["clauses"].append({"file": fs.specfile, "fn": full, "spec_line": lineno, "text": t.strip(), "props": clause_props(t, fs.props), "where": "proof"})
+            elif mac is None and "verus_spec(" in t:
+                # a contract woven onto a closure (%raw): its own clause, with the function's properties unless tagged
+                info["clauses"].append({"file": fs.specfile, "fn": full, "spec_line": lineno, "text": t.strip(), "props": clause_props(t, fs.props), "where": "closure"})
     # R6-generated loops: replace the placeholder comment inside edit text
     for n, sec in fs.r6.items():
         tag = "/*@R6INV:%d*/" % n
